@@ -78,9 +78,13 @@ def flow_checks(chk, kind, noise, tier, rs):
     """one configuration of the test-setting flow: baseline, repeats, real parallel runs, re-estimation, reconstruction."""
     tag = "%s:%s" % (kind, noise)
     cases = ("lin", "plin", "lsq") if kind in ("state", "povm") else ("lin", "lsq")
+    num_data, rate = (30, 120), 0.1
+    if kind == "state_z":
+        # data-dependent weights on data with zero counts; the weighted case runs before the linear ones
+        cases, num_data, rate = ("wlsq", "lin", "plin"), (6, 40), 0.02
     n_rep = 3
-    mk = lambda: simrun.make_setting(kind=kind, noise=noise, n_sample=2, n_rep=n_rep, num_data=(30, 120), cases=cases,
-                                     seed_qoperation=int(rs.randint(1, 10 ** 6)) if False else 888, seed_data=777)
+    mk = lambda: simrun.make_setting(kind=kind, noise=noise, n_sample=2, n_rep=n_rep, num_data=num_data, cases=cases,
+                                     seed_qoperation=888, seed_data=777, rate=rate)
     root = scratch()
     try:
         def bad(clause, msg, **extra):
@@ -135,6 +139,8 @@ def flow_checks(chk, kind, noise, tier, rs):
         if tier != "quick":
             pars += [dict(ps=a, pd=b, pu=c, pe=d) for a in (1, 2, 4) for b in (1, 3) for c in (1, 2) for d in (1, 4)
                      if (a, b, c, d) != (1, 1, 1, 1)]
+        elif kind == "state_z":
+            pars = [pars[3], pars[0]]
         elif kind != "state":
             pars = pars[4:]
         for par in pars:
@@ -372,6 +378,7 @@ def run(chk):
     replay_schedules(chk, list(uniq.values()))
     flow_checks(chk, "state", "rel", t, rs)
     flow_checks(chk, "povm", "depolarized", t, rs)
+    flow_checks(chk, "state_z", "depolarized", t, rs)
     if t != "quick":
         flow_checks(chk, "gate", "rel", t, rs)
         flow_checks(chk, "mprocess", "depolarized", t, rs)
